@@ -28,8 +28,11 @@ CEmit(c, e) ==
   LET text == e.text
       exp  == G!Line(c.cfg, c.cur)
       wrong == c.cur.valid /\ text # exp
+      \* a value that cannot be rendered has no faithful line: whatever text was handed to the sink does not carry the
+      \* value that was supplied (C01: parsing the line back yields exactly the supplied value list)
       v == (IF ~c.cur.valid THEN {<<"C03", "emit-for-a-rejected-value">>, <<"C02", "invalid-value-was-sent">>,
-                                  <<"C20", "invalid-value-not-reported-as-error">>} ELSE {})
+                                  <<"C20", "invalid-value-not-reported-as-error">>,
+                                  <<"C01", "line-emitted-for-a-value-that-cannot-be-rendered">>} ELSE {})
            \cup (IF Len(c.emits) >= 1 THEN {<<"C03", "more-than-one-emit-in-one-call">>} ELSE {})
            \cup (IF wrong THEN {<<"C01", "line-differs-from-the-grammar">>} ELSE {})
            \cup (IF wrong /\ Decorated(c) THEN {<<"C04", "decorated-line-differs-from-the-grammar">>} ELSE {})
